@@ -26,6 +26,7 @@ def case_strategy():
     def _case(draw):
         nm = draw(st.integers(1, 4))
         uniform = draw(st.booleans())
+        ustart = draw(st.sampled_from([9, 9, 1, 2]))  # positions >= ustart are named uniformly even if not `uniform`
         host = draw(st.sampled_from(["func", "func", "attr", "mc"]))
         kwpool = ["k0", "k1", "k2"]
         methods = []
@@ -40,7 +41,7 @@ def case_strategy():
                 npos = draw(st.integers(1, 3))
             seen_opt = kind == "allopt"
             for j in range(npos):
-                name = f"a{j}" if uniform else f"p{i}_{j}"
+                name = f"a{j}" if (uniform or j >= ustart) else f"p{i}_{j}"
                 opt = seen_opt or draw(st.integers(0, 2)) == 0
                 if j == 0 and kind != "allopt":
                     opt = False
@@ -70,9 +71,10 @@ def case_strategy():
             if draw(st.integers(0, 14)) == 0:
                 kws.append(draw(st.sampled_from(kwpool)))
             bykw = 0
-            if uniform and n and draw(st.integers(0, 3)) == 0:
+            if n and draw(st.integers(0, 3)) == 0:
                 bykw = draw(st.integers(1, n))
-            calls.append({"target": t["id"], "n": n, "kws": sorted(set(kws)), "bykw": bykw,
+            skip_first = draw(st.integers(0, 5)) == 0  # omit an optional leading positional while giving a later one by keyword
+            calls.append({"target": t["id"], "n": n, "kws": sorted(set(kws)), "bykw": bykw, "skip_first": skip_first,
                           "raise": draw(st.integers(0, 5)) == 0,
                           "via": draw(st.sampled_from(["dispatch", "dispatch", "ovld"]))})
         return {"methods": methods, "calls": calls, "host": host, "uniform": uniform}
@@ -119,18 +121,28 @@ def run_case(spec):
                 p = next((p for p in t["kw"] if p["name"] == k), None)
                 kws[k] = 7 if (p and p.get("ann") == ["cls", "int"]) else Arg(k)
             exp = M.resolve(methods, args, kws, env)
-            # positional-by-keyword (documented only for the uniform-name regime with <=1 optional)
+            # positional-by-keyword: documented only when every method names every position identically and at most
+            # one positional is optional overall.  Outside that regime the shape may be refused, but if it is
+            # served the binding must still be exact (never a silently dropped keyword).
             call_args, call_kws = list(args), dict(kws)
             bykw = c.get("bykw", 0)
-            if bykw:
-                if uniform_names and n_opt_pos <= 1 and n <= len(t["pos"]):
+            documented = True
+            if bykw and n <= len(t["pos"]):
+                names = [t["pos"][j]["name"] for j in range(n - bykw, n)]
+                if any(t["pos"][j].get("posonly") for j in range(n - bykw, n)) or set(names) & set(kws):
+                    bykw = 0
+                else:
+                    documented = uniform_names and n_opt_pos <= 1
                     for j in range(n - bykw, n):
                         call_kws[t["pos"][j]["name"]] = call_args[j]
                     call_args = call_args[: n - bykw]
-                    res.label("positional-by-keyword")
-                else:
-                    res.label("positional-by-keyword-not-documented(skipped)")
-                    bykw = 0
+                    if c.get("skip_first") and call_args and t["pos"][len(call_args) - 1].get("opt"):
+                        # drop the last positionally supplied (optional) argument: it takes its default
+                        call_args = call_args[:-1]
+                        documented = False
+                    res.label("positional-by-keyword" + ("" if documented else "-undocumented"))
+            else:
+                bykw = 0
             via = prog.ov if (c.get("via") == "ovld" and spec["host"] == "func") else None
             out = prog.call(call_args, call_kws, script=[["raise"]] if c.get("raise") else None, via=via)
             omitted = n < len(t["pos"]) or any(p["name"] not in kws for p in t["kw"])
@@ -144,6 +156,21 @@ def run_case(spec):
             if n == 0:
                 res.label("zero-positional")
             desc = f"call target=m{t['id']} n={n} kws={sorted(kws)} bykw={bykw} via={c.get('via')}"
+            if bykw and not documented:
+                # undocumented shape: refusing is fine; serving it must not lose or misplace anything
+                if out.kind in ("other", "badcall"):
+                    res.fail(f"{desc} (positional by keyword, undocumented): {out.brief()}", None)
+                elif prog.H.log:
+                    mid, loc = prog.H.log[0]
+                    mm = prog.by_id[mid]
+                    bad = [f"{k}={loc.get(k)!r}" for k, v in call_kws.items() if loc.get(k) is not v]
+                    bad += [f"{mm['pos'][j]['name']}={loc.get(mm['pos'][j]['name'])!r}" for j, v in enumerate(call_args)
+                            if j < len(mm["pos"]) and loc.get(mm["pos"][j]["name"]) is not v]
+                    if bad:
+                        res.fail(f"{desc}: call f(*{len(call_args)} positionals, **{sorted(call_kws)}) was served by "
+                                 f"m{mid} but supplied arguments were lost or misplaced: {bad}",
+                                 "C03:keyword-dropped-when-earlier-optional-positional-omitted")
+                continue
             if exp[0] == "method":
                 m = prog.by_id[exp[1]]
                 if out.kind in ("nomethod", "rejected", "ambiguous", "badcall", "other", "config"):
